@@ -2,5 +2,6 @@ import ShootVerif.Drive.Loop
 import ShootVerif.Drive.Ctor
 import ShootVerif.Drive.Opt
 import ShootVerif.Drive.GetSet
+import ShootVerif.Drive.Json
 open ShootVerif.Drive
-def main : IO Unit := runDriver [("ctor", ctorCase), ("opt", optCase), ("getset", getsetCase)]
+def main : IO Unit := runDriver [("ctor", ctorCase), ("opt", optCase), ("getset", getsetCase), ("json", jsonCase)]
